@@ -570,10 +570,13 @@ def oracle_variables(im, rng, n: int) -> T.List[Viol]:
             if not ok or not deep_eq(vs['a'], v) or not deep_eq(vs['b'], want):
                 out.append((f'plusassign:{code!r}', '`+=` on a dict changed the other name (or built the wrong value)',
                             {'program': code, 'answer': ans}))
-    for code, key in [("d = {'kwargs': 1}\n", 'dict-literal-kwargs'), ("d = {'kwargs': {'a': 1}}\nn = d.keys()\nok = d.has_key('kwargs')\n", 'dict-literal-kwargs')]:
+    # a dictionary literal builds exactly the entries written, whatever the key is called
+    for lit, want in [("{'kwargs': 1}", {'kwargs': 1}), ("{'kwargs': {'a': 1}}", {'kwargs': {'a': 1}}),
+                      ("{'a': 2, 'kwargs': {'a': 1, 'kwargs': 3}}", {'a': 2, 'kwargs': {'a': 1, 'kwargs': 3}})]:
+        code = f"d = {lit}\nn = d.keys()\n"
         ok, vs, ans = ev(im, code)
-        if not ok or vs.get('ok') is False:
-            out.append((key, "a dict literal with the key 'kwargs' is rejected / spliced instead of building that entry",
+        if not ok or not deep_eq(vs.get('d'), want):
+            out.append(('dict-literal-kwargs', "a dict literal with the key 'kwargs' is rejected / spliced instead of building that entry",
                         {'program': code, 'answer': ans}))
     return out
 
